@@ -140,6 +140,9 @@ def run(ctx):
     lbase = (base % "'steel s' 'ipe'") + "|loads|\nfx lc 1 0.5 20\nfy ld %s 0 -50 1 -50\nfy lc 2 0.25 -10\n"
     for bid in ("01", "002", "1.0", "+1", "1e0", "2.", "0x1"):
         faults.append(("lookalike", lbase % bid))
+    # ... and loads that amount to nothing (no length, no value) on a bar that is not defined: still a load on an undefined bar
+    for line in ("fy ld 9 0.5 -50 0.5 -50", "fx ld nobar 0 0 1 0", "mz lc 7 0.5 0", "fy gd 3 1 -2 1 -2"):
+        faults.append(("lookalike", (base % "'steel s' 'ipe'") + "|loads|\nfx lc 1 0.5 20\n" + line + "\nfy lc 2 0.25 -10\n"))
     texts = [("valid", t) for t in valid] + faults
     outs = S.run_pipeline(ctx, [{"Text": t, "ParseOnly": True} for k, t in texts])
     rejected = sum(1 for o in outs if o.get("ParsePanic"))
